@@ -351,6 +351,48 @@ func hasNonrev(t any) bool {
 	return false
 }
 
+// snapshot: the numbers of a proof (list) as text, for "verification does not change what it is
+// given" (the alpha response, which the verifier itself fills in, and nil members excluded;
+// malformed objects that the tree functions cannot walk give "").
+func snapshot(ps ...gabi.Proof) (s string) {
+	defer func() {
+		if recover() != nil {
+			s = ""
+		}
+	}()
+	var trees []any
+	for _, p := range ps {
+		var t any
+		switch q := p.(type) {
+		case *gabi.ProofD:
+			if q == nil {
+				continue
+			}
+			t = proofDTree(q)
+		case *gabi.ProofU:
+			if q == nil {
+				continue
+			}
+			t = proofTree(q)
+		default:
+			continue
+		}
+		if tt, ok := t.(T); ok {
+			if nr, ok := tt["nonrev_proof"].(T); ok {
+				if rs, ok := nr["responses"].(T); ok {
+					delete(rs, "alpha")
+				}
+			}
+		}
+		trees = append(trees, t)
+	}
+	b, err := json.Marshal(trees)
+	if err != nil {
+		return ""
+	}
+	return string(b)
+}
+
 func verdict(b bool) string {
 	if b {
 		return "accept"
@@ -404,7 +446,11 @@ func init() {
 				} else if err := json.Unmarshal(raw, &pl); err != nil {
 					return "decode-error"
 				}
+				before := snapshot(pl...)
 				v := verdict(pl.Verify(pks, ctx, nonce, o.boolean("issig"), kss))
+				if after := snapshot(pl...); before != "" && after != "" && after != before {
+					return "arguments-changed-" + v
+				}
 				if o["then_keys"] != nil && v == "accept" {
 					// the same (already verified) objects presented under other keys: what a first
 					// verification left in them must not make a second one succeed
@@ -447,7 +493,11 @@ func init() {
 				} else if err := json.Unmarshal(raw, p); err != nil {
 					return "decode-error"
 				}
+				before := snapshot(p)
 				v := verdict(p.Verify(pk, ctx, nonce, o.boolean("issig")))
+				if after := snapshot(p); before != "" && after != "" && after != before {
+					return "arguments-changed-" + v
+				}
 				if n == 1 {
 					if v2 := verdict(p.Verify(pk, ctx, nonce, o.boolean("issig"))); v2 != v {
 						return "unstable-" + v + "-then-" + v2
